@@ -1,0 +1,23 @@
+//go:build verif
+
+package kmipserver
+
+import "sync/atomic"
+
+var verifYieldFn atomic.Pointer[func(point string)]
+
+// SetVerifYield installs the callback invoked at the verification yield points
+// (nil removes it). Only available with the "verif" build tag.
+func SetVerifYield(f func(point string)) {
+	if f == nil {
+		verifYieldFn.Store(nil)
+		return
+	}
+	verifYieldFn.Store(&f)
+}
+
+func verifYield(point string) {
+	if f := verifYieldFn.Load(); f != nil {
+		(*f)(point)
+	}
+}
